@@ -191,12 +191,14 @@ _pb("C07", "contract-based deductive verification (pyvc) of LabelGenerator.next 
     "LabelGenerator.next returns '@' + decimal(counter+1) + 'X' and increments the counter by one (so deterministic "
     "binarization labels are pairwise distinct). That binarization preserves the yield function is bounded only.",
     "proof for the label generator only, the property itself bounded (rule space exhaustive up to the bound); 'other'")
-_pb("C10", "contract-based deductive verification (pyvc) of transitions.topdown (the sequence is the reversed preorder of node actions; ValueError iff not binarized / heads missing); bounded stand-in: three replay automata",
+_pb("C10", "contract-based deductive verification (pyvc) of transitions.topdown (reversed preorder of node actions; ValueError iff not binarized / heads missing) and of _inorder / inorder (recursion: the sequence equals the recursively defined in-order sequence); bounded stand-in: three replay automata",
     "topdown is proved to emit, for every well-formed tree, exactly one action per node in reversed preorder (SHIFT / UNARY-label "
     "/ BINARY-side-label with the side of the head child) and to raise ValueError exactly when some node has more than two "
-    "children or a binary node lacks head marks. That replaying rebuilds the tree, and the in-order and gap systems, are bounded "
-    "only.",
-    "proof of the shape of the top-down sequence, replay soundness bounded; 'other'")
+    "children or a binary node lacks head marks. _inorder is proved, for trees of any arity, to return exactly the sequence "
+    "defined by IO(x) = seg(c0) ++ [PJ-label(x)] ++ seg(c1) ++ ... ++ [REDUCE] over the children in order of their leftmost "
+    "token (seg = SHIFT for a token, IO(c) for a constituent), and inorder to return it next to one (word, tag) pair per "
+    "token. That replaying rebuilds the tree, and the gap system, are bounded only.",
+    "proof of the shape of the top-down and in-order sequences, replay soundness bounded; 'other'")
 
 _pb("C06", "contract-based deductive verification (pyvc) of the counting block of grammar.extract as a block contract (one occurrence added, nothing else changed); bounded stand-in (instantiate-and-compare oracle, reference grammar) for the extracted rules",
     "The counting block of extract adds exactly one occurrence to the entry (rule, linearization, vertical context) and "
